@@ -179,7 +179,10 @@ def do_replay(ctx):
         return
     cfg = [c for c in C.quick_configs() + C.thorough_configs() + C.core_configs() if c.name == d["config"]][0]
     base = bytes.fromhex(d["canonical_base"])
-    res = H.run_job((d["source"], cfg, [base], [[(d["entry"], bytes.fromhex(d["input_hex"]))]]))
+    # the constructor of the echo contract needs canonical arguments of its own type: reuse the recorded base when
+    # it is the 1-tuple encoding, else deploy with the input itself
+    res = H.run_job((d["source"], cfg, [bytes.fromhex(d.get("ctor_base", d["canonical_base"]))],
+                     [[(d["entry"], bytes.fromhex(d["input_hex"]))]], [bytes.fromhex(x) for x in d.get("kwsel", [])]))
     if res["error"]:
         ctx.violation("correspondence-broken", "replay could not run: " + res["error"][:200], d)
         return
@@ -357,7 +360,7 @@ def run(ctx):
         kwsel = [selector(sig("kw", [t])), selector(sig("kw", [t, ("uint", 8)])), selector(sig("kw", [t, ("uint", 8), ("bytes", 4)]))]
         for cfg in chosen:
             jobs.append((src, cfg, bl, inputs, kwsel))
-            jm.append((t, vals, src, cfg, metas, bl))
+            jm.append((t, vals, src, cfg, metas, bl, kwsel))
     t0 = time.time()
     with ProcessPoolExecutor(max_workers=4) as ex:
         results = list(ex.map(H.run_job, jobs, chunksize=2))
@@ -366,7 +369,7 @@ def run(ctx):
     stats = {"call": 0, "len": 0, "mem": 0, "memnt": 0, "ret": 0, "ctor": 0, "accepted": 0, "rejected": 0, "accepted_noncanonical": 0,
              "model_accepts_contract_rejects_payload": 0}
     nfail = 0
-    for (t, vals, src, cfg, metas, bl), res in zip(jm, results):
+    for (t, vals, src, cfg, metas, bl, kwsel), res in zip(jm, results):
         if res.get("skipped"):
             ctx.corr["skipped_too_large"] = ctx.corr.get("skipped_too_large", 0) + 1
             continue
@@ -406,7 +409,7 @@ def run(ctx):
                 detail = {"source": src, "config": cfg.name, "entry": kind, "how": how, "type": A.eth_ty(t),
                           "value": repr(vals[vi]), "corruption": cterm, "input_hex": data.hex(),
                           "model": exp[:300], "observed_ok": ok, "observed_out": out.hex() if isinstance(out, bytes) else out,
-                          "canonical_base": base_for.hex()}
+                          "canonical_base": base_for.hex(), "ctor_base": bl[vi].hex(), "kwsel": [x.hex() for x in kwsel]}
                 ctx.violation("failing-input" if verdict == "failing" else "correspondence-broken", f"{kind}: {text}", detail)
     found = any(v["kind"] == "failing-input" for v in ctx.violations)
     from vlib import c06_pins
